@@ -56,6 +56,11 @@ func zzBuildTable(st *zzStore, tag byte, nb, rowsPer, keycols int) (*objects.Tab
 	if keycols == 2 {
 		tbl = &objects.Table{Columns: []string{"k", "k2", "v"}, PK: []uint32{0, 1}}
 	}
+	if keycols == 0 {
+		// a table without primary key: the whole row is the key, so the index entry of a
+		// row carries the row's own sum twice and a row can only be added or removed
+		tbl = &objects.Table{Columns: []string{"k"}}
+	}
 	var tblIdx [][]string
 	var rows []zzRow
 	var prev zzRow
@@ -67,6 +72,9 @@ func zzBuildTable(st *zzStore, tag byte, nb, rowsPer, keycols int) (*objects.Tab
 		}
 		for i := 0; i < rowsPer; i++ {
 			r := zzRow{key: zzverif.Byte("key"), sum: zzverif.Byte("sum"), off: uint32(b*objects.BlockSize + i)}
+			if keycols == 0 {
+				r.sum = r.key
+			}
 			if keycols == 2 {
 				r.key2 = zzverif.Byte("key2")
 				// a composite key whose first component takes few values, so that ties on the
